@@ -41,6 +41,7 @@ fn main() {
         "sm9kex" => suites::sm9::drive_kex(&mut t, &tier, seed),
         "sm9pair" => suites::sm9::drive_pairing(&mut t, &tier, seed),
         "sm9arith" => suites::sm9::drive_arith(&mut t, &tier, seed),
+        "api" => suites::api::drive(&mut t, &tier, seed),
         "sm4blk" => suites::sm4::drive_block(&mut t, &tier, seed, plan),
         "sm4mode" => suites::sm4::drive_modes(&mut t, &tier, seed),
         _ => {
